@@ -354,6 +354,24 @@ theorem C14_gen_preCheck (fm : Bool) (nVars nCons : Nat) (pol : Policy) (o : Opt
     · simp [h3, h1]
     · simp [h3, h1]
 
+/-- the same in the binary format: the generated checks come first, then the record length of the dual vector is read and compared -/
+theorem C14_gen_preCheck_bin (fm : Bool) (nVars nCons : Nat) (pol : Policy) (o : Opts) (inp : Bytes) (hrv : pol.optRv = 0) :
+    preCheck fm nVars nCons pol true (some o) inp =
+      (if count_guard (o.z 3) (o.z 1) nVars nCons = .ret 0 then
+        (match readU32 inp with
+          | none => .error (err .earlyEof)
+          | some (L, r) => if L ≠ recLen (o.z 1).toNat then .error (err .badFormat) else .ok ((o.z 1).toNat, (o.z 3).toNat, r))
+       else .error (err .badFormat)) := by
+  rw [C14_gen_count_guard]
+  unfold preCheck
+  simp only [hrv, ne_eq, not_true_eq_false, if_false, if_true]
+  by_cases h3 : o.z 3 > nVars ∨ o.z 3 < 0
+  · simp [h3]
+  · by_cases h1 : o.z 1 > nCons ∨ o.z 1 < 0
+    · simp [h3, h1]
+    · simp [h3, h1]
+      rcases readU32 inp with _ | ⟨L, r⟩ <;> rfl
+
 theorem arith_tI' {r : Int} (h1 : -2147483648 ≤ r) (h2 : r ≤ 2147483647) : arith tI r = .ret r := by
   simp [arith, tI, CTy.lo, CTy.hi, h1, h2]
 
